@@ -441,3 +441,30 @@ def base_constants(ctx):
         "M_ZERO": V.const(0),
     }
     return consts, problems
+
+
+def precision_typedefs(ctx):
+    """[(line, precision value, typedef'd base type, alias)] of the `typedef <type> <ALIAS>;` lines inside the
+    `#if PRECISION == <k>` ... `#endif` blocks of bempp_base_types.h (one level of conditional nesting)."""
+    rel = "bempp_cl/core/sources/include/bempp_base_types.h"
+    src = ctx.repo.text(rel)
+    out, cur, depth = [], None, 0
+    for i, line in enumerate(src.split("\n"), 1):
+        t = line.strip()
+        m = re.match(r"#\s*if\s+PRECISION\s*==\s*(\d+)\s*$", t)
+        if m and cur is None:
+            cur, depth = int(m.group(1)), 0
+            continue
+        if cur is not None:
+            if re.match(r"#\s*if", t):
+                depth += 1
+            elif re.match(r"#\s*endif", t):
+                if depth == 0:
+                    cur = None
+                else:
+                    depth -= 1
+            else:
+                m = re.match(r"typedef\s+([A-Za-z_]\w*)\s+([A-Za-z_]\w*)\s*;", t)
+                if m:
+                    out.append((i, cur, m.group(1), m.group(2)))
+    return rel, out
